@@ -11,6 +11,7 @@ re-evaluates the argument expression in the *caller's* environment; a call evalu
 environment of the function's definition extended by the argument expressions.
 -/
 import UH.Proofs.NatSemMemo
+import UH.Proofs.NatSemPrim
 namespace UH.ByName
 open UH BigStep Comp
 
@@ -23,6 +24,7 @@ instance : Inhabited TEnv := ⟨.mk [] []⟩
 
 inductive TVal where
   | int (n : Int)
+  | bool (b : Bool)
   | clo (body : AST) (env : TEnv)
 
 /-- call by name -/
@@ -36,6 +38,17 @@ inductive BN : TEnv → AST → TVal → Prop
   | call {ρ f args sp b ρd v} : tagOf f = none → BN ρ f (.clo b ρd) →
       BN (.mk (ρd.funs ++ [(b, ρd)]) (ρd.args ++ [args.map (fun a => (a, ρ))])) b v →
       BN ρ (.call f args sp) v
+  /-- the Boolean constants ㅈㅈ / ㄱㅈ -/
+  | ctrue {ρ n spf sp} : encodeNumber n = [7, 7] → BN ρ (.call (.lit n spf) [] sp) (.bool true)
+  | cfalse {ρ n spf sp} : encodeNumber n = [0, 7] → BN ρ (.call (.lit n spf) [] sp) (.bool false)
+  /-- a Boolean applied to two expressions selects one of them; the other is not evaluated -/
+  | sel {ρ f x y sp b v} : tagOf f = none → BN ρ f (.bool b) → BN ρ (if b then x else y) v → BN ρ (.call f [x, y] sp) v
+  /-- ㄴ on two integers -/
+  | eqInt {ρ n spf a1 a2 sp x y} : encodeNumber n = [1] → BN ρ a1 (.int x) → BN ρ a2 (.int y) →
+      BN ρ (.call (.lit n spf) [a1, a2] sp) (.bool (x == y))
+  /-- ㄷ on two integers -/
+  | addInt {ρ n spf a1 a2 sp x y} : encodeNumber n = [2] → BN ρ a1 (.int x) → BN ρ a2 (.int y) →
+      BN ρ (.call (.lit n spf) [a1, a2] sp) (.int (x + y))
 
 theorem BN.deterministic {ρ e v1 v2} (h1 : BN ρ e v1) (h2 : BN ρ e v2) : v1 = v2 := by
   induction h1 generalizing v2 with
@@ -49,11 +62,44 @@ theorem BN.deterministic {ρ e v1 v2} (h1 : BN ρ e v1) (h2 : BN ρ e v2) : v1 =
       have := ih1 hp'; cases this
       rw [hx] at hx'; cases hx'
       exact ih2 hv'
-  | call _ _ _ ih1 ih2 =>
+  | call hf _ _ ih1 ih2 =>
     cases h2 with
     | call _ hf' hb' =>
       have := ih1 hf'; cases this
       exact ih2 hb'
+    | sel _ hf' _ => have := ih1 hf'; cases this
+    | ctrue _ => simp [tagOf] at hf
+    | cfalse _ => simp [tagOf] at hf
+    | eqInt _ _ _ => simp [tagOf] at hf
+    | addInt _ _ _ => simp [tagOf] at hf
+  | ctrue hn =>
+    cases h2 with
+    | ctrue _ => rfl
+    | cfalse hn' => rw [hn] at hn'; cases hn'
+    | call hf _ _ => simp [tagOf] at hf
+  | cfalse hn =>
+    cases h2 with
+    | cfalse _ => rfl
+    | ctrue hn' => rw [hn] at hn'; cases hn'
+    | call hf _ _ => simp [tagOf] at hf
+  | sel hf _ _ ih1 ih2 =>
+    cases h2 with
+    | sel _ hf' hv' => have := ih1 hf'; cases this; exact ih2 hv'
+    | call _ hf' _ => have := ih1 hf'; cases this
+    | eqInt _ _ _ => simp [tagOf] at hf
+    | addInt _ _ _ => simp [tagOf] at hf
+  | eqInt hn _ _ ih1 ih2 =>
+    cases h2 with
+    | eqInt _ h1' h2' => have := ih1 h1'; cases this; have := ih2 h2'; cases this; rfl
+    | addInt hn' _ _ => rw [hn] at hn'; cases hn'
+    | call hf _ _ => simp [tagOf] at hf
+    | sel hf _ _ => simp [tagOf] at hf
+  | addInt hn _ _ ih1 ih2 =>
+    cases h2 with
+    | addInt _ h1' h2' => have := ih1 h1'; cases this; have := ih2 h2'; cases this; rfl
+    | eqInt hn' _ _ => rw [hn] at hn'; cases hn'
+    | call hf _ _ => simp [tagOf] at hf
+    | sel hf _ _ => simp [tagOf] at hf
 
 /-! ### ghost trees for heap objects -/
 
@@ -136,6 +182,7 @@ def Den (G : Ghost) (s : Store) (t : TId) (tv : TVal) : Prop := BN (G.cellEnv t)
 
 inductive RVal (G : Ghost) (s : Store) : Val → TVal → Prop
   | int (n : Int) : RVal G s (.int n) (.int n)
+  | bool (b : Bool) : RVal G s (.bool b) (.bool b)
   | fn {f b ρ cenv} : s.fns.get? f = some (.closure b cenv) → G.fnClo f = (b, ρ) → RVal G s (.fn f) (.clo b ρ)
 
 structure Inv (G : Ghost) (s : Store) : Prop where
@@ -155,6 +202,7 @@ structure Inv (G : Ghost) (s : Store) : Prop where
 theorem RVal.ext {G s G' s' v tv} (h : RVal G s v tv) (e : Ext G s G' s') : RVal G' s' v tv := by
   cases h with
   | int n => exact .int n
+  | bool b => exact .bool b
   | fn hg hc => obtain ⟨h1, h2⟩ := e.fns _ _ hg; exact .fn h1 (h2.trans hc)
 
 theorem Den.ext {G s G' s' t tv} (e : Ext G s G' s') (ht : (s.cells.get? t).isSome) :
@@ -582,6 +630,25 @@ theorem adequate_any {ρ e tv} (hbn : BN ρ e tv)
       exact ⟨G, _, v, 1, h1, h2, h3, h4⟩
 
 
+/-- a demand for a delayed expression, however its memo cell stands: it delivers a value related to the by-name value -/
+theorem forces_any {ρ e tv} (hbn : BN ρ e tv)
+    (IH : ∀ (G : Ghost) (s : Store) (w : World) (t : TId), Inv G s → (s.cells.get? t).isSome → (s.getCell t).expr = e →
+      G.cellEnv t = ρ → (s.getCell t).value = none → Adequate tv G s w t)
+    (G : Ghost) (s : Store) (w : World) (t : TId) (inv : Inv G s) (hex : (s.cells.get? t).isSome)
+    (he : (s.getCell t).expr = e) (hρ : G.cellEnv t = ρ) :
+    ∃ (G' : Ghost) (s' : Store) (v : Val) (h0 : Nat), Forces s w t v h0 s' ∧ Inv G' s' ∧ Ext G s G' s' ∧ RVal G' s' v tv := by
+  cases hv : (s.getCell t).value with
+  | none =>
+    obtain ⟨G', s', v, h, ev, inv', ex, rv⟩ := IH G s w t inv hex he hρ hv
+    exact ⟨G', s', v, h, Forces.eval hv ev, inv', ex, rv⟩
+  | some o =>
+    cases o with
+    | error e' => exact absurd hv (inv.noErr t e')
+    | ok v => exact ⟨G, s, v, 0, Forces.memo w hv, inv, Ext.refl G s, inv.memo t v hv tv (inv.den_of he hρ hbn)⟩
+
+theorem builtin_name {n : Int} {e : List Digit} (h : encodeNumber n = e) (he : builtinNames.contains e = true) :
+    isBuiltinName n = true := by unfold isBuiltinName; rw [h]; exact he
+
 /-- **adequacy of call by need for call by name**: if the memo-free tree semantics assigns the value `tv` to the
 expression delayed in cell `t`, the evaluator's big-step semantics evaluates `t` to a value related to `tv`
 (the same integer / the closure of the same body and environment), keeping the invariant -/
@@ -771,6 +838,173 @@ theorem adequacy {ρ e tv} (hbn : BN ρ e tv) : ∀ (G : Ghost) (s : Store) (w :
       refine Eval.frameTail (t' := s2.cells.size) (lit := tagOf b) ?_ (ev2.mono _ (by omega))
       rw [newFrame_cur_none hnone, he]
       exact hcomp.mono _ (Nat.le_max_left _ _)
+
+  | @ctrue ρ n spf sp hn =>
+    intro G s w t inv hex he hρ hnone
+    let env := (s.getCell t).env
+    have hsc := inv.cellScoped t hex
+    have inv0 := inv.alloc (.lit n spf) env hsc
+    have ex0 := ext_alloc (G := G) inv.wf (.lit n spf) env (trEnv G s env)
+    have hb : builtinOf n = some bTrue := by simp [builtinOf, hn]
+    have hcomp : Eval s w (.comp (bodyOf (.call (.lit n spf) [] sp) env)) 0 (.ok (.arg (.strict (.bool true))))
+        (alloc s (.lit n spf) env) w :=
+      rule_call_builtin s w 0 n spf [] sp env bTrue (builtin_name hn (by decide)) hb (eval_true _ _ _ _)
+    have hd : Den (G.setCell s.cells.size (trEnv G s env)) (alloc s (.lit n spf) env) t (.bool true) :=
+      (Den.ext ex0 hex).2 (inv.den_of he hρ (BN.ctrue hn))
+    have st := sameStatic_resolve (.ok (.bool true)) ((alloc s (.lit n spf) env).cells.size + 1) (alloc s (.lit n spf) env) t
+    refine ⟨_, _, .bool true, 1, ?_, inv0.resolve _ t _ _ hd (.bool true), ex0.trans (st.ext _), .bool true⟩
+    refine Eval.frameVal (h := 0) ?_
+    rw [newFrame_cur_none hnone, he]
+    exact hcomp
+  | @cfalse ρ n spf sp hn =>
+    intro G s w t inv hex he hρ hnone
+    let env := (s.getCell t).env
+    have hsc := inv.cellScoped t hex
+    have inv0 := inv.alloc (.lit n spf) env hsc
+    have ex0 := ext_alloc (G := G) inv.wf (.lit n spf) env (trEnv G s env)
+    have hb : builtinOf n = some bFalse := by simp [builtinOf, hn]
+    have hcomp : Eval s w (.comp (bodyOf (.call (.lit n spf) [] sp) env)) 0 (.ok (.arg (.strict (.bool false))))
+        (alloc s (.lit n spf) env) w :=
+      rule_call_builtin s w 0 n spf [] sp env bFalse (builtin_name hn (by decide)) hb (eval_false _ _ _ _)
+    have hd : Den (G.setCell s.cells.size (trEnv G s env)) (alloc s (.lit n spf) env) t (.bool false) :=
+      (Den.ext ex0 hex).2 (inv.den_of he hρ (BN.cfalse hn))
+    have st := sameStatic_resolve (.ok (.bool false)) ((alloc s (.lit n spf) env).cells.size + 1) (alloc s (.lit n spf) env) t
+    refine ⟨_, _, .bool false, 1, ?_, inv0.resolve _ t _ _ hd (.bool false), ex0.trans (st.ext _), .bool false⟩
+    refine Eval.frameVal (h := 0) ?_
+    rw [newFrame_cur_none hnone, he]
+    exact hcomp
+  | @sel ρ f x y sp b v hf hcallee hsel ih1 ih2 =>
+    intro G s w t inv hex he hρ hnone
+    let env := (s.getCell t).env
+    have hsc := inv.cellScoped t hex
+    have hρ' : ρ = trEnv G s env := hρ.symm.trans (inv.cellEnv t hex)
+    have inv0 := inv.alloc f env hsc
+    have ex0 := ext_alloc (G := G) inv.wf f env (trEnv G s env)
+    obtain ⟨Ga, inva, exa, hmap, hargs⟩ := allocArgs_spec env [x, y] _ _ inv0 (hsc.ext ex0)
+    have hnew0 := alloc_get?_new s f env
+    have hna := exa.cells s.cells.size hnew0
+    obtain ⟨G2, s2, v2, h1, ev1, inv2, ex12, rv2⟩ :=
+      ih1 Ga (allocArgs (alloc s f env) env [x, y]).1 w s.cells.size inva hna.1
+        (by rw [hna.2.1, getCell_alloc_new]) (by rw [hna.2.2.2]; simp [Ghost.setCell, hρ'])
+        (by rw [allocArgs_getCell env [x, y] _ _ (by simp [alloc]), getCell_alloc_new])
+    cases rv2
+    have ex02 := (ex0.trans exa).trans ex12
+    have hcomp := rule_call_bool s w h1 f x y sp env b s2 w hf ev1
+    -- the two argument cells
+    have hsz : (alloc s f env).cells.size = s.cells.size + 1 := by simp [alloc]
+    simp only [allocArgs, List.map_cons, List.map_nil, hsz, alloc, Heap.size_push, trArg, List.cons.injEq, Prod.mk.injEq, and_true] at hmap
+    obtain ⟨⟨hx1, hx2⟩, hy1, hy2⟩ := hmap
+    have hax := hargs (.thunk (s.cells.size + 1) (tagOf x)) (by simp [allocArgs, alloc])
+    have hay := hargs (.thunk (s.cells.size + 1 + 1) (tagOf y)) (by simp [allocArgs, alloc])
+    obtain ⟨_, _, hax1, hax2⟩ := hax
+    obtain ⟨_, _, hay1, hay2⟩ := hay
+    cases hax1; cases hay1
+    -- the selected one
+    have key : ∀ (tt : TId) (ee : AST) (lit : Option Int), ((allocArgs (alloc s f env) env [x, y]).1.cells.get? tt).isSome →
+        ((allocArgs (alloc s f env) env [x, y]).1.getCell tt).expr = ee → Ga.cellEnv tt = trEnv (G.setCell s.cells.size (trEnv G s env)) (alloc s f env) env →
+        BN ρ ee v → (∀ tv', BN ρ ee tv' → BN ρ (.call f [x, y] sp) tv') →
+        (∀ (G : Ghost) (s : Store) (w : World) (t : TId), Inv G s → (s.cells.get? t).isSome → (s.getCell t).expr = ee →
+          G.cellEnv t = ρ → (s.getCell t).value = none → Adequate v G s w t) →
+        Eval s w (.comp (bodyOf (.call f [x, y] sp) env)) h1 (.ok (.arg (.thunk tt lit))) s2 w →
+        Adequate v G s w t := by
+      intro tt ee lit htt hee hgg hbnee hlink ihh hcomp'
+      have htt2 := (ex12.cells tt htt).1
+      have ht2 := (ex02.cells t hex).1
+      have hgρ : G2.cellEnv tt = ρ := by
+        rw [(ex12.cells tt htt).2.2.2, hgg, trEnv_ext hsc ex0, ← hρ']
+      have hl : ∀ tv', Den G2 s2 tt tv' → Den G2 s2 t tv' := by
+        intro tv' hd
+        rw [Den.ext ex02 hex]
+        unfold Den at hd ⊢
+        rw [he, hρ]
+        rw [(ex12.cells tt htt).2.1, hee, hgρ] at hd
+        exact hlink tv' hd
+      have inv2' := inv2.setRequestor tt t hl ht2
+      have st2 := sameStatic_setRequestor s2 tt (some t)
+      obtain ⟨G3, s3, v3, h2, ev2, inv3, ex23, rv3⟩ :=
+        adequate_any hbnee ihh G2 (setRequestor s2 tt (some t)) w tt inv2' (by rw [st2.ex]; exact htt2)
+          (by rw [st2.expr, (ex12.cells tt htt).2.1]; exact hee) hgρ
+      refine ⟨G3, s3, v3, max h1 h2 + 1, ?_, inv3, ex02.trans ((st2.ext G2).trans ex23), rv3⟩
+      refine Eval.frameTail (t' := tt) (lit := lit) ?_ (ev2.mono _ (by omega))
+      rw [newFrame_cur_none hnone, he]
+      exact hcomp'.mono _ (Nat.le_max_left _ _)
+    cases b with
+    | true =>
+      exact key (s.cells.size + 1) x (tagOf x) hax2 hx1 hx2 hsel (fun tv' h' => BN.sel hf hcallee h') ih2 (by simpa using hcomp)
+    | false =>
+      exact key (s.cells.size + 1 + 1) y (tagOf y) hay2 hy1 hy2 hsel (fun tv' h' => BN.sel hf hcallee h') ih2 (by simpa using hcomp)
+  | @eqInt ρ n spf a1 a2 sp x y hn hb1 hb2 ih1 ih2 =>
+    intro G s w t inv hex he hρ hnone
+    let env := (s.getCell t).env
+    have hsc := inv.cellScoped t hex
+    have hρ' : ρ = trEnv G s env := hρ.symm.trans (inv.cellEnv t hex)
+    have inv0 := inv.alloc (.lit n spf) env hsc
+    have ex0 := ext_alloc (G := G) inv.wf (.lit n spf) env (trEnv G s env)
+    obtain ⟨Ga, inva, exa, hmap, hargs⟩ := allocArgs_spec env [a1, a2] _ _ inv0 (hsc.ext ex0)
+    have hsz : (alloc s (.lit n spf) env).cells.size = s.cells.size + 1 := by simp [alloc]
+    simp only [allocArgs, List.map_cons, List.map_nil, hsz, alloc, Heap.size_push, trArg, List.cons.injEq, Prod.mk.injEq, and_true] at hmap
+    obtain ⟨⟨hx1, hx2⟩, hy1, hy2⟩ := hmap
+    obtain ⟨_, _, hax1, hax2⟩ := hargs (.thunk (s.cells.size + 1) (tagOf a1)) (by simp [allocArgs, alloc])
+    obtain ⟨_, _, hay1, hay2⟩ := hargs (.thunk (s.cells.size + 1 + 1) (tagOf a2)) (by simp [allocArgs, alloc])
+    cases hax1; cases hay1
+    have hρa : trEnv (G.setCell s.cells.size (trEnv G s env)) (alloc s (.lit n spf) env) env = ρ := by
+      rw [trEnv_ext hsc ex0, ← hρ']
+    obtain ⟨G1, s1, v1, k1, f1, inv1, ex1, rv1⟩ := forces_any hb1 ih1 Ga _ w (s.cells.size + 1) inva hax2 hx1 (hx2.trans hρa)
+    cases rv1
+    have hay2' := (ex1.cells _ hay2)
+    obtain ⟨G2, s2, v2, k2, f2, inv2, ex2, rv2⟩ := forces_any hb2 ih2 G1 s1 w (s.cells.size + 1 + 1) inv1 hay2'.1
+      (by rw [hay2'.2.1]; exact hy1) (by rw [hay2'.2.2.2]; exact hy2.trans hρa)
+    cases rv2
+    have hbi : builtinOf n = some bEquals := by simp [builtinOf, hn]
+    have hcomp : Eval s w (.comp (bodyOf (.call (.lit n spf) [a1, a2] sp) env)) (max k1 k2) (.ok (.arg (.strict (.bool (x == y))))) s2 w := by
+      refine rule_call_builtin s w _ n spf [a1, a2] sp env bEquals (builtin_name hn (by decide)) hbi ?_
+      simp only [allocArgs, hsz, alloc, Heap.size_push]
+      exact eval_equals_ints f1 f2 _ (Nat.le_max_left _ _) (Nat.le_max_right _ _)
+    have ex02 := ((ex0.trans exa).trans ex1).trans ex2
+    have hd : Den G2 s2 t (.bool (x == y)) := (Den.ext ex02 hex).2 (inv.den_of he hρ (BN.eqInt hn hb1 hb2))
+    have st := sameStatic_resolve (.ok (.bool (x == y))) (s2.cells.size + 1) s2 t
+    refine ⟨G2, _, .bool (x == y), max k1 k2 + 1, ?_, inv2.resolve _ t _ _ hd (.bool _), ex02.trans (st.ext _), .bool _⟩
+    refine Eval.frameVal ?_
+    rw [newFrame_cur_none hnone, he]
+    exact hcomp
+  | @addInt ρ n spf a1 a2 sp x y hn hb1 hb2 ih1 ih2 =>
+    intro G s w t inv hex he hρ hnone
+    let env := (s.getCell t).env
+    have hsc := inv.cellScoped t hex
+    have hρ' : ρ = trEnv G s env := hρ.symm.trans (inv.cellEnv t hex)
+    have inv0 := inv.alloc (.lit n spf) env hsc
+    have ex0 := ext_alloc (G := G) inv.wf (.lit n spf) env (trEnv G s env)
+    obtain ⟨Ga, inva, exa, hmap, hargs⟩ := allocArgs_spec env [a1, a2] _ _ inv0 (hsc.ext ex0)
+    have hsz : (alloc s (.lit n spf) env).cells.size = s.cells.size + 1 := by simp [alloc]
+    simp only [allocArgs, List.map_cons, List.map_nil, hsz, alloc, Heap.size_push, trArg, List.cons.injEq, Prod.mk.injEq, and_true] at hmap
+    obtain ⟨⟨hx1, hx2⟩, hy1, hy2⟩ := hmap
+    obtain ⟨_, _, hax1, hax2⟩ := hargs (.thunk (s.cells.size + 1) (tagOf a1)) (by simp [allocArgs, alloc])
+    obtain ⟨_, _, hay1, hay2⟩ := hargs (.thunk (s.cells.size + 1 + 1) (tagOf a2)) (by simp [allocArgs, alloc])
+    cases hax1; cases hay1
+    have hρa : trEnv (G.setCell s.cells.size (trEnv G s env)) (alloc s (.lit n spf) env) env = ρ := by
+      rw [trEnv_ext hsc ex0, ← hρ']
+    obtain ⟨G1, s1, v1, k1, f1, inv1, ex1, rv1⟩ := forces_any hb1 ih1 Ga _ w (s.cells.size + 1) inva hax2 hx1 (hx2.trans hρa)
+    cases rv1
+    have hax2' := (ex1.cells _ hax2)
+    obtain ⟨G1', s1', v1', k1', f1', inv1', ex1', rv1'⟩ := forces_any hb1 ih1 G1 s1 w (s.cells.size + 1) inv1 hax2'.1
+      (by rw [hax2'.2.1]; exact hx1) (by rw [hax2'.2.2.2]; exact hx2.trans hρa)
+    cases rv1'
+    have hay2' := ((ex1.trans ex1').cells _ hay2)
+    obtain ⟨G2, s2, v2, k2, f2, inv2, ex2, rv2⟩ := forces_any hb2 ih2 G1' s1' w (s.cells.size + 1 + 1) inv1' hay2'.1
+      (by rw [hay2'.2.1]; exact hy1) (by rw [hay2'.2.2.2]; exact hy2.trans hρa)
+    cases rv2
+    have hbi : builtinOf n = some bAdd := by simp [builtinOf, hn]
+    have hcomp : Eval s w (.comp (bodyOf (.call (.lit n spf) [a1, a2] sp) env)) (max (max k1 k1') k2) (.ok (.arg (.strict (.int (x + y))))) s2 w := by
+      refine rule_call_builtin s w _ n spf [a1, a2] sp env bAdd (builtin_name hn (by decide)) hbi ?_
+      simp only [allocArgs, hsz, alloc, Heap.size_push]
+      exact eval_add_ints f1 f1' f2 _ (by omega) (by omega) (by omega)
+    have ex02 := (((ex0.trans exa).trans ex1).trans ex1').trans ex2
+    have hd : Den G2 s2 t (.int (x + y)) := (Den.ext ex02 hex).2 (inv.den_of he hρ (BN.addInt hn hb1 hb2))
+    have st := sameStatic_resolve (.ok (.int (x + y))) (s2.cells.size + 1) s2 t
+    refine ⟨G2, _, .int (x + y), max (max k1 k1') k2 + 1, ?_, inv2.resolve _ t _ _ hd (.int _), ex02.trans (st.ext _), .int _⟩
+    refine Eval.frameVal ?_
+    rw [newFrame_cur_none hnone, he]
+    exact hcomp
 
 
 /-! ### closed programs -/
